@@ -22,6 +22,15 @@ from .c19 import isolated
 def _call(spec):
     import athlib
     name, args, kw = spec
+    if name == 'seq':
+        # one thread's little history: earlier calls (which may be refused) are made for what they leave behind in the
+        # thread and in the shared objects, the last call's answer is the thread's result
+        for sub in args[:-1]:
+            try:
+                _call(sub)
+            except Exception:
+                pass
+        return _call(args[-1])
     if name == 'schema_valid':
         import jsonschema
         from athlib import utils
@@ -88,6 +97,13 @@ def scenarios(quick):
     w11, w12 = C('wma_age_factor', 'm', 50, '11K'), C('wma_age_grade', 'm', 50, '11K', '45:00')
     add('wma', [(w1, w2), (w1, w1), (w1, w3), (w3, w4), (w5, w2), (w5, w6), (w6, w1), (w3, w5), (w7, w8), (w9, w10), (w9, w11), (w12, w9), (w12, w10), (w9, w12)] if not quick else
         [(w1, w2), (w1, w3), (w3, w4), (w5, w6), (w6, w1), (w7, w8), (w9, w10), (w12, w9)])
+    # a thread whose earlier call was refused (rule 4, per thread): per-thread bookkeeping left stale on the exception path
+    # (seed C16-j: a thread-local "already inside the lock" mark that only a normal return cleared)
+    wr1 = C('seq', C('wma_age_factor', 'm', 50, 'NOSUCH'), C('wma_age_factor', 'm', 50, '100'))
+    wr2 = C('seq', C('wma_world_best', 'x', '100'), C('wma_age_grade', 'f', 60, '5K', '25:00'))
+    add('wma', [(wr1, w2), (wr2, w1)] if quick else [(wr1, w2), (wr2, w1), (wr1, wr2), (w2, wr1)], variants=('warm',) if quick else ('cold', 'warm'))
+    ar1 = C('seq', C('athlon_score', 'W', '100', 13.5, age=50), C('athlon_score', 'F', '100', 13.5, age=50))
+    add('athlon', [(ar1, a3)], variants=('warm',) if quick else ('cold', 'warm'))
     g1, g2, g3 = C('wma_athlon_age_factor', 'M', 50, '100'), C('wma_athlon_age_factor', 'F', 60, 'LJ'), C('wma_athlon_age_grade', 'M', 66, '60H', '9.9')
     g3b, g1b = C('wma_athlon_age_grade', 'M', 66, '60H', '11.2'), C('wma_athlon_age_factor', 'M', 70, '100')
     add('wma_athlon', [(g1, g2), (g1, g1), (g3, g2)])
@@ -600,7 +616,7 @@ def run(tier):
         # code -> spec: the executions of the lazily-built-table code as behaviours of the PlusCal model
         for group in sorted(LABELS):
             tr = [(q, ex['events']) for q, ((s, seg), ex) in enumerate(zip(jobs, execs))
-                  if s['group'] == group and ex['events']]
+                  if s['group'] == group and ex['events'] and not any(c[0] == 'seq' for c in s['calls'])]   # (the model is one call per thread)
             if not tr:
                 rep.notes.append('%s: no execution could be mapped to model labels (source patterns not found)' % group)
                 continue
